@@ -107,6 +107,41 @@ CHECKS = {
          "block-by-block fresh assembly.",
          "Trusted: format decoders in pyprops/formats.py. Input file name held constant (ELF embeds it).",
          "DESIGN.md 3/C13"),
+ "C01": ("hypothesis+nvserve",
+         "round-trip (encode->decode->encode) over generated one-instruction programs and over all decoder renderings + differential against independent MSP430 / RV32I reference encoders",
+         "Generated-input search with round-trip and reference-model oracles: (a) every instruction text of tests/comparison "
+         "(47 CPUs; the hex column is not used) at 4 load addresses, (b) Hypothesis mutations of those texts (registers, "
+         "immediates at field boundaries, signed/unsigned spellings, PC-relative targets), (c) every rendering the "
+         "disassembler produces for the leading 16-bit patterns x tails of all 68 CPUs (shared scan with C07): the emitted "
+         "bytes are walked by the disassembler (must consume exactly the emitted bytes) and each rendering is assembled "
+         "again at its address (must give the same bytes); (d) MSP430 core (27 instructions x 7 source / 4 destination "
+         "modes x B/W incl. constant generators) and RV32I (40 instructions) forms with boundary operands are compared "
+         "byte-for-byte with pyprops/ref_encoders.py written from the architecture manuals.",
+         "Trusted: pyprops/ref_encoders.py. Known assembler/disassembler disagreements are listed per (cpu, kind, mnemonic) in "
+         "known_findings.json; anything else is a violation.",
+         "DESIGN.md 3/C01, 9"),
+ "C06": ("hypothesis+nvserve",
+         "metamorphic collision oracle over swept operand values (literal and forward-label spellings) for every instruction template with a numeric or register hole",
+         "Generated-input search with a width-agnostic metamorphic oracle: each instruction text of tests/comparison (47 "
+         "CPUs) with one numeric literal or register number replaced by a hole is assembled with ~400 values per hole "
+         "(0, +-1, +-2^k, +-(2^k+-1) for k<=32, the same offsets around the instruction's address for branch distances, "
+         "accepted values +-2^j, and forward-label spellings next to accept/reject boundaries); two accepted values "
+         "with identical bytes must be the signed/unsigned spellings of one w-bit field value; different register "
+         "numbers must never share an encoding. quick: 20 templates per CPU, thorough: all ~10,000 templates (10.7 M "
+         "assemblies).",
+         "The oracle needs no per-CPU field table; it only judges collisions (a bijectively wrong field is C01/C07's business). "
+         "Known truncating templates are listed per (cpu, template shape).",
+         "DESIGN.md 3/C06, 9"),
+ "C07": ("hypothesis+nvserve",
+         "exhaustive enumeration of leading 16-bit patterns x tails per CPU inside the sanitized harness; round-trip oracle decode->assemble->decode",
+         "Generated-input search by exhaustive/structured enumeration with a round-trip oracle: for each of the 68 CPUs "
+         "all 65,536 leading half words (quick: every 8th) x zero/ones/keyed tails, and for 32-bit ISAs a coprime "
+         "stride of leading half words x 37 structured second half words, are disassembled; every rendering the "
+         "assembler accepts at the same address must disassemble to the same rendering again (mnemonic and operands, "
+         "numbers by value, signed spellings in 8/16/32 bits equal).",
+         "32-bit opcode spaces are sampled through their leading half word; known disagreements are listed per (cpu, "
+         "mnemonic, signature); CPUs whose renderings the assembler never accepts are listed as vacuous in the evidence.",
+         "DESIGN.md 3/C07, 9"),
  "C14": ("hypothesis+nvserve",
          "differential testing against a reference model: seeded enumeration of opcode x state single steps + Hypothesis-generated -run programs vs ref_msp430 (written from SLAU144)",
          "Generated-input search against a reference model: (a) first opcode words of the 16-bit core (quick: ~120k seeded "
@@ -227,9 +262,10 @@ m = {
  "checks": [], "not_applicable": [],
  "notes": "All checks: ./check <ID> --tier quick|thorough ; VERIF_SEED selects the random stream; fixes made to /repo are listed in known_findings.json ('fixed')."
 }
+PENDING = set(open('/verif/tools/pending.txt').read().split()) if __import__('os').path.exists('/verif/tools/pending.txt') else set()
 for p in props:
     pid = p["id"]
-    if pid in CHECKS:
+    if pid in CHECKS and pid not in PENDING:
         eng, tech, text, note, ref = CHECKS[pid]
         m["checks"].append({
             "property_id": pid,
